@@ -1,12 +1,21 @@
 #!/bin/bash
-# re-evaluate saved seeds (own property's quick check) from their scratch worktrees; args: list of seed names or none=all
+# re-evaluate saved seeds (own property's quick check) from their scratch worktrees; args: list of seed names or none=all.
+# Each worktree is first moved onto /repo's current HEAD (its uncommitted mutation is carried over as a patch; the
+# stash is shared between worktrees and is not used).
 cd "$(dirname "$0")/.."
 names="$@"; [ -z "$names" ] && names=$(ls seeded | grep -v INDEX)
+head=$(git -C /repo rev-parse HEAD)
+mkdir -p /tmp/scratch
 for n in $names; do
   prop=${n%%-*}
-  if [[ "$n" == *-2 ]]; then wt=/tmp/seed2/$prop; elif [[ "$n" == *-3 ]]; then wt=/tmp/seed3/$prop; elif [[ "$n" == *-4 ]]; then wt=/tmp/seed4/$prop; else wt=/tmp/seed/$prop; fi
+  case "$n" in *-2) wt=/tmp/seed2/$prop;; *-3) wt=/tmp/seed3/$prop;; *-4) wt=/tmp/seed4/$prop;; *-5) wt=/tmp/seed5/$prop;; *) wt=/tmp/seed/$prop;; esac
   [ -d "$wt" ] || { echo "$n: no worktree"; continue; }
+  if [ "$(git -C $wt rev-parse HEAD)" != "$head" ]; then
+    p=/tmp/scratch/rebase_$n.patch
+    git -C $wt diff > $p
+    git -C $wt checkout -q --force --detach $head && git -C $wt apply $p || { echo "$n: patch does not apply on current HEAD"; continue; }
+  fi
   echo "== $n"
-  tools/eval_seed.py $wt $prop --save $n 2>&1 | egrep "exit " | cut -c1-160
+  tools/eval_seed.py $wt $prop --save $n 2>&1 | egrep "exit |demo:" | cut -c1-160
 done
 tools/seed_index.py > /dev/null
